@@ -148,6 +148,17 @@ CHECKS['C17'] = dict(
          "strings depend on the draws and are not decided.",
     tech="static analysis: finite abstract evaluation of extracted syntax trees over a quotient domain (K-ABS), scope pairing by post-dominance, def-use of the probability denominator")
 
+CHECKS['C15'] = dict(
+    text="Cursor accounting of the scanner decided on all paths for every input: token text = consumed characters (literal spellings compared "
+         "with the dispatch/match characters; source spans compared as normalised position terms), a forward dataflow classifies the "
+         "character consumed at every site (non-newline / newline / unknown) and any site that may consume a newline must be followed by "
+         "line+1 and column:=1 before the next consumption, scanners that can cross a line report the position captured before their first "
+         "consumption, the end-minus-length column formula is confined to newline-free scanners, and the primitive steps move position "
+         "and column together.",
+    note=TB + "The premise 'a token never starts with a newline' is itself checked (tokenize runs skipWhitespace immediately before scanToken; "
+         "skipWhitespace only stops at end of input or at a non-space). Tabs count one column, as in the lexer's own convention.",
+    tech="static analysis: forward must-dataflow over a three-point character lattice, path counting of consumed characters vs. literal length, normalised term comparison of span arguments")
+
 NOT_YET = "check not yet built in this round (framework under construction; see DESIGN.md §4 for the planned static rules)"
 
 
